@@ -126,7 +126,7 @@ def r3_own_key_trusted_by_default(cx):
             r = deep_root(new, ct["args"][0])
             if r is not None and r["l"] in tk_locals:
                 pushes.append((ci, ct))
-    cx.floor("trusted-pushes", len(pushes), 2, "pushes to the trusted key list in Crypto::new")
+    cx.floor("trusted-pushes", len(pushes), 1, "pushes to the trusted key list in Crypto::new")
     empt = [(ci, ct) for ci, ct in new.calls() if callee_is(ct, "vec::Vec::is_empty") and (lambda r: r is not None and r["l"] in tk_locals)(deep_root(new, ct["args"][0]))]
     cx.exact("empty-test", len(empt), 1, "is_empty tests of the trusted key list")
     if empt:
@@ -138,12 +138,10 @@ def r3_own_key_trusted_by_default(cx):
             tainted = forward_taint(new, seed_locals=sorted(kp_locals), mut_args=True)
             r = deep_root(new, ct["args"][1])
             cx.check("own-public-key", r is not None and r["l"] in tainted, site_of(new, ci), "the key trusted by default is derived from the node's own key pair")
-        others = [(ci, ct) for ci, ct in pushes if not dominated_by_edges(new, te, ci)]
-        for ci, ct in others:
-            o = origin(new, ct["args"][1])
-            okp = False
-            r = deep_root(new, ct["args"][1])
-            cx.check("configured-keys-parsed", ci in [c for c, _ in pushes], site_of(new, ci), "configured trusted keys are parsed by parse_public_key", how="auto")
+    # configured trusted keys are parsed by parse_public_key (push loop or iterator map + collect)
+    ppk = A.method(prog, "Crypto", "parse_public_key")
+    parsed = [(b, ci) for b in A.with_closures(prog, new) for ci, ct in b.calls() if any(d == ppk.did for _k, d in prog.cg.resolve(b, ct))]
+    cx.floor("configured-keys-parsed", len(parsed), 1, "parse_public_key calls for the configured trusted keys in Crypto::new")
 
 
 def r4_public_from_private(cx):
